@@ -206,9 +206,20 @@ impl<T: Qcow2IoOps> Qcow2Dev<T> {
             }
         };
 
-        if let Some(lock) = cluster_lock {
+        if let Some(mut lock) = cluster_lock {
             if let Some(df) = discard {
-                df.await?
+                if let Err(e) = df.await {
+                    // Not zeroed: the cluster stays new (reads of it give
+                    // zeros, the next writer tries again). It is mapped
+                    // already, so it must not reach the disk like this:
+                    // flush_meta() zeroes it first.
+                    *lock = false;
+                    if !may_cow {
+                        self.zero_failed.lock().unwrap().insert(key);
+                        self.mark_need_flush(true);
+                    }
+                    return Err(e);
+                }
             }
 
             let cow_res = match cow_mapping {
